@@ -47,7 +47,7 @@ CHECKS = {
  "C15": ("model_checking",
          "choice-sequence DFS with deviation bound over every answer the random sources can give (permutations, phase vectors, normal draws, twin-walk draws) x histories of 1-3 generator calls on one object, on the real Surrogates / RecurrencePlot code vs exact oracles",
          "The random sources of surrogates.py and of the twin-walk kernels are replaced by choice points (option 0 = the seeded default); all executions with <= 1 deviation (2 on the smallest data and the twin sweep) are run for all rows of length 4-5 over {0,1,3}, structured 2-row arrays and fixed arrays of length 8-16, for every generator called three times on the same object and every ordered pair of generators; shuffle/AAFT outputs must be exact row permutations, Fourier-type outputs must keep the amplitude spectrum (explicit DFT), twins must equal the oracle's twin sets, and every twin-surrogate step must be a legal transition (NFA); one recorded sequence per case is replayed twice as a seam self-test.",
-         "Deviation bound 1-2; N=2 arrays are a structured subset; thresholds exactly at a state distance excluded. Trusted: numpy FFT only inside the library (the oracle uses an explicit DFT).",
+         "Deviation bound 1-2; N=2 arrays are a structured subset; for a state pair exactly at the threshold the neighbourhoods are the rows of the class's own recurrence plot. Trusted: numpy FFT only inside the library (the oracle uses an explicit DFT).",
          "7/C15"),
  "C17": ("model_checking",
          "choice-sequence DFS with iterative-deepening deviation bound over every index/real the random sources can return, on the real rewiring kernels and model generators, with invariants checked on every completed execution",
@@ -56,7 +56,7 @@ CHECKS = {
          "7/C17"),
  "C16": ("exploration",
          "exhaustive enumeration of all ordered pairs of binary sequences of length <=6 (<=8 thorough) x taumax x lag x timestamps, all 5x3 event matrices x symmetrisations, all (4,2) data arrays for thresholding, on the real EventSeries vs Fraction counting rules",
-         "Every ordered pair of 0/1 sequences up to the length bound with taumax in {1,2,inf}, lag in {0,1} and two timestamp sets is passed to event_synchronization and event_coincidence_analysis and compared with a Fraction transcription of the published counting rules; ranges, exchange symmetry, time-shift and (taumax=inf) time-scaling invariance; all 32768 5x3 event matrices (and 7x2) for the matrix analysis under all symmetrisation options; make_event_matrix on all (4,2) arrays over {0,1,2} for every method/type/quantile.",
+         "Every ordered pair of 0/1 sequences up to the length bound with taumax in {0,1,2,inf}, lag in {0,1} and two timestamp sets is passed to event_synchronization and event_coincidence_analysis and compared with a Fraction transcription of the published counting rules; ranges, exchange symmetry, time-shift and (taumax=inf) time-scaling invariance; all 32768 5x3 event matrices (and 7x2) for the matrix analysis under all symmetrisation options; make_event_matrix on all (4,2) arrays over {0,1,2} for every method/type/quantile.",
          "Pairs with undefined rates (too few events, zero denominator) excluded and counted.",
          "7/C16"),
  "C20": ("exploration",
